@@ -314,12 +314,69 @@ def _uniform(case, rec):
               got=[get(res, "num_edges"), get(res, "num_faces")], want=[len(edges), len(faces)])
 
 
+# ------------------------------------------------------- first calls in a fresh process
+def _first_call_cases(tier):
+    """Short call sequences, each run in its own interpreter: what a family answers must not depend on which call
+    (integer- or float-typed parameters, which family) happened to be the first one in the process."""
+    F = {"323": "Family323Plus", "423": "Family423", "523": "Family523"}
+    intc = {"323": [(1, 1), (3, 3), (1, 3), (3, 1)], "423": [(1, 2), (2, 3), (1, 3), (2, 2)], "523": [(1, 3)]}
+    flt = {"323": [(1.5, 2.5), (2.25, 1.125)], "423": [(1.5, 2.5), (1.25, 2.75)], "523": [(1.3, 2.9), (1.05, 2.8)]}
+    out = []
+    for fam in F:
+        i0 = intc[fam][0]
+        i1 = intc[fam][-1]
+        f0, f1 = flt[fam]
+        seqs = [[("int", i0), ("float", f0)], [("float", f0), ("int", i0)], [("npint", i1), ("float", f1), ("int", i0)],
+                [("float", f0), ("float", f1)], [("int", i0), ("int", i1), ("float", f0), ("float", f1)]]
+        for s in seqs:
+            out.append({"fam": fam, "seq": [[k, list(p)] for k, p in s]})
+    out.append({"fam": "trunc", "seq": [["int", [1]], ["float", [0.4]], ["int", [0]], ["float", [0.75]]]})
+    out.append({"fam": "trunc", "seq": [["float", [0.4]], ["int", [1]]]})
+    # one family's first call must not matter to a sibling either (they share the base class machinery)
+    out.append({"fam": "mixed", "seq": [["int", [1, 3], "423"], ["float", [1.5, 2.5], "323"], ["float", [1.3, 2.9], "523"], ["float", [0.4], "trunc"]]})
+    out.append({"fam": "mixed", "seq": [["int", [1], "trunc"], ["float", [1.5, 2.5], "423"], ["int", [1, 3], "523"], ["float", [2.25, 1.125], "323"]]})
+    return out
+
+
+def _first_calls(case, rec):
+    from harness.fresh import run_fresh
+
+    F = {"323": "Family323Plus", "423": "Family423", "523": "Family523", "trunc": "TruncatedTetrahedronFamily"}
+    calls, meta = [], []
+    for item in case["seq"]:
+        kind, p = item[0], item[1]
+        fam = item[2] if len(item) > 2 else case["fam"]
+        lit = {"int": lambda x: repr(int(x)), "npint": lambda x: "np.int64(%d)" % int(x), "float": lambda x: repr(float(x))}[kind]
+        calls.append("coxeter.families.%s.get_shape(%s)" % (F[fam], ", ".join(lit(x) for x in p)))
+        meta.append((fam, kind, [float(x) for x in p]))
+    sig = {"family": case["fam"], "level": "first_calls"}
+    rec.concrete = {"calls": calls}
+    rec.nontrivial = len({k for _, k, _ in meta}) > 1
+    rec.label("family:" + case["fam"], "mixed_types" if rec.nontrivial else "one_type")
+    res = run_fresh(calls)
+    for i, ((fam, kind, p), r) in enumerate(zip(meta, res)):
+        if fam == "trunc":
+            fam_, a, c = "323", 1.0, 3 - 2 * p[0]
+        else:
+            fam_, a, c = fam, p[0], p[1]
+        X = exact_vertices(fam_, a, FAMS[fam_][3], c)
+        size = 2 * float(np.max(np.linalg.norm(X, axis=1)))
+        s2 = dict(sig, call=i, params=kind, after=",".join(k for _, k, _ in meta[:i]) or "nothing")
+        if not rec.check(isinstance(r, dict) and r.get("__shape__") == "ConvexPolyhedron", "returns_ConvexPolyhedron", s2, got=repr(r)[:120], call_src=calls[i]):
+            continue
+        V = np.array(r["vertices"]["__array__"], dtype=float)
+        h = hausdorff(V, X)
+        rec.check(h <= 1e-6 * size, "is_the_halfspace_intersection", s2, hausdorff=h / size, nverts=len(V), exact=len(X), call_src=calls[i])
+
+
 def clauses():
     cl = [Clause("planes_" + f, _pcase(f), _plane_family, quick=q, thorough=t, rule="(a,c) of " + FAMS[f][0],
                  floors={"in_domain": 0.5, "out_of_domain": 0.08, "interior": 0.2})
           for f, q, t in (("323", 500, 8000), ("423", 400, 8000), ("523", 250, 6000))]
     cl.append(Clause("uniform_families", None, _uniform, quick=0, thorough=0, enumerate_cases=_uniform_cases,
                      rule="n = 3..200 exhaustively for n-gon/prism/antiprism, n in {3,4,5} for pyramid/dipyramid", floors={}))
+    cl.append(Clause("first_calls_in_a_fresh_process", None, _first_calls, quick=0, thorough=0, enumerate_cases=_first_call_cases,
+                     rule="19 call sequences mixing integer- and float-typed parameters and families, one fresh interpreter each", floors={}))
     return cl
 
 
